@@ -360,13 +360,13 @@ def default_value(fld):
     return tuple(d)
 
 
-def prim_job(r, prim, focus, prefixes, enums, v=None):
+def prim_job(r, prim, focus, prefixes, enums, v=None, minimal=False):
     """one primitive call: field `focus` gets a pool value (or v), some of the others too, the rest their defaults"""
     given, allp = [], []
     for i, fld in enumerate(prim["fields"]):
         nm, kind = fld[0], fld[1]
         dv = default_value(fld)
-        if i == focus or dv is None or r.random() < 0.3:
+        if i == focus or dv is None or (not minimal and r.random() < 0.3):
             val = v if (i == focus and v is not None) else value_for_kind(r, kind, fld, prefixes, enums)
             given.append([nm, val])
         else:
@@ -510,14 +510,18 @@ def report_insts(run, stream, jobs, outs, bad):
     v1 = sorted([i for i, c in bad if c == 1], key=lambda i: jsize(jobs[i]))
     v2 = sorted([i for i, c in bad if c == 2], key=lambda i: jsize(jobs[i]))
     v3 = [i for i, c in bad if c == 3]
-    if v1:
-        i = v1[0]
+    # one report per class of failure (how the implementation answered), the smallest case of each
+    classes = {}
+    for i in v1:
+        cls = (outs[i].get("stage"), outs[i].get("exc")) if not outs[i].get("ok") else ("accepted", "")
+        classes.setdefault(cls, i)
+    for cls, i in sorted(classes.items(), key=lambda kv: jsize(jobs[kv[1]])):
         run.violation(f"C13:inst:{json.dumps(job_json(jobs[i])['tgt'])}:{json.dumps(job_json(jobs[i])['given'])}",
                       f"exported Instance.parameters do not show the given values for {json.dumps(job_json(jobs[i])['tgt'])} "
                       f"with {json.dumps(job_json(jobs[i])['given'])[:300]}: {json.dumps(show_out(outs[i]))[:400]}",
                       dict(kind="impl-violates-spec", stream=stream, entry="inst", case=job_json(jobs[i]), impl=show_out(outs[i]),
-                           failing_cases=len(v1), reproducer=py_job(jobs[i])))
-    elif v2:
+                           failing_cases=len(v1), failure_class=list(cls), reproducer=py_job(jobs[i])))
+    if not v1 and v2:
         i = v2[0]
         run.violation(f"C13:{stream}:tie", f"model and implementation differ on {json.dumps(job_json(jobs[i]))[:300]}: {json.dumps(show_out(outs[i]))[:300]} "
                       "(property holds on every explored input)",
@@ -604,13 +608,13 @@ def run(run, tier, seed, replay=None):
     cj = []
     for v in [("pre", (0, 1, 30), 0), ("pre", (0, I63, 0), 3), ("pre", (0, 15, -1), -9), ("int", 10 ** 30), ("str", cp("1_000")), ("str", cp("nan")),
               ("flt", 0.1), ("dec", (0, 150, -2))]:
-        cj.append(prim_job(r, byname["IdealResistor"], 0, prefixes, enums, v=v))
-        cj.append(prim_job(r, byname["Mos"], 0, prefixes, enums, v=v))
-        cj.append(prim_job(r, byname["PulseVoltageSource"], 0, prefixes, enums, v=v))
+        cj.append(prim_job(r, byname["IdealResistor"], 0, prefixes, enums, v=v, minimal=True))
+        cj.append(prim_job(r, byname["Mos"], 0, prefixes, enums, v=v, minimal=True))
+        cj.append(prim_job(r, byname["PulseVoltageSource"], 0, prefixes, enums, v=v, minimal=True))
         cj.append(dict(tgt=["ext", "dict", None, cp("X")], given=[[cp("p"), v]], all=[(cp("p"), 4, v)]))
     for v in [("str", cp("wparam")), ("lit", cp("l*2")), ("str", cp("1e-30")), ("int", 0), ("pre", (0, 1, -30), -24), ("pre", (0, 1, 0), -24)]:
-        cj.append(prim_job(r, byname["Bipolar"], 0, prefixes, enums, v=v))      # Literal width: TypeError on the pinned tree
-        cj.append(prim_job(r, byname["Bipolar"], 1, prefixes, enums, v=v))
+        cj.append(prim_job(r, byname["Bipolar"], 0, prefixes, enums, v=v, minimal=True))      # Literal width: TypeError on the pinned tree
+        cj.append(prim_job(r, byname["Bipolar"], 1, prefixes, enums, v=v, minimal=True))
     outs, bad = run_insts(run, "corpus", cj, enums)
     report_insts(run, "corpus", cj, outs, bad)
     run.sample(dict(stream="corpus", entry="inst", case=job_json(cj[2]), impl=show_out(outs[2])))
@@ -619,7 +623,7 @@ def run(run, tier, seed, replay=None):
     traces += 2 * len(cv) + len(cj)
 
     # ------------------------------------------------------------------ streams scalar / value
-    n = 1200 if quick else 30000
+    n = 1200 if quick else 20000
     for kind in ("scalar", "value"):
         r = core.rng(seed, "C13", kind)
         vals = [gen_any(r, prefixes, enums) for _ in range(n)]
@@ -648,16 +652,16 @@ def run(run, tier, seed, replay=None):
 
     # ------------------------------------------------------------------ stream inst
     r = core.rng(seed, "C13", "inst")
-    per_field = 6 if quick else 150
+    per_field = 6 if quick else 100
     jobs = []
     for p in prims:
         for i, fld in enumerate(p["fields"]):
             for _ in range(per_field):
                 jobs.append(prim_job(r, p, i, prefixes, enums))
     nprim = len(jobs)
-    for _ in range(250 if quick else 6000):
+    for _ in range(250 if quick else 4000):
         jobs.append(ext_job(r, "dict", xp_fields, prefixes, enums))
-    for _ in range(250 if quick else 6000):
+    for _ in range(250 if quick else 4000):
         jobs.append(ext_job(r, "pc", xp_fields, prefixes, enums))
     outs, bad = run_insts(run, "inst", jobs, enums)
     report_insts(run, "inst", jobs, outs, bad)
@@ -695,7 +699,7 @@ def run(run, tier, seed, replay=None):
 
     # ------------------------------------------------------------------ spec validation against CPython's decimal
     r = core.rng(seed, "C13", "numspec")
-    texts = [cp(s) for s in TEXTS] + [gen_text(r) for _ in range(1200 if quick else 30000)]
+    texts = [cp(s) for s in TEXTS] + [gen_text(r) for _ in range(1200 if quick else 20000)]
     texts += [cp(dstr(gen_triple(r))) for _ in range(100)]
     orc = [cpython_numeric(s) for s in texts]
     cases = [f"({c_str(s)}, {'None' if o is None else '(Some ' + c_dec(o) + ')'})" for s, o in zip(texts, orc)]
@@ -709,7 +713,7 @@ def run(run, tier, seed, replay=None):
         run.violation("C13:spec-validation:numeric", f"the Coq numeric-string reader disagrees with decimal.Decimal on {uncp(texts[i])!r} (code points {texts[i]}): CPython {orc[i]}",
                       dict(kind="spec-validation", stream="numeric-spec", text=texts[i], cpython=orc[i], disagreeing=len(nbad)), found_input=False)
     r = core.rng(seed, "C13", "strspec")
-    ts = boundary_triples() + [gen_triple(r, maxexp=r.choice([40, 40, 400])) for _ in range(800 if quick else 20000)]
+    ts = boundary_triples() + [gen_triple(r, maxexp=r.choice([40, 40, 400])) for _ in range(800 if quick else 10000)]
     cases = [f"({c_dec(t)}, {c_str(cp(str(Decimal(dstr(t)))))})" for t in ts]
     sbad = core.coq_eval_cases("C13", "strspec", IMPORTS, "dec * str", cases, "run_cases chk_strspec", chunk=600)
     run.stream("str-spec-vs-cpython", len(cases), len({json.dumps(t) for t in ts if t[1] >= 10 or t[2] != 0}),
